@@ -125,6 +125,7 @@ func runC02(c *Ctx) {
 	c.overflowPromotion(reg)
 	c.intArith(reg)
 	c.sharingRules(ia, reg)
+	c.copyExtentRule(ia, reg)
 	c.identityRule(ia)
 }
 
